@@ -17,7 +17,7 @@ VARIABLES l,         \* next trace line to consume
 tvars == <<msgVars, bVars, lVars, eVars, l, lastRan, ucb, ecall, eenv>>
 EvObjs == 0..31
 NoECall == [op |-> -1, ev |-> 0, fl |-> 0, ff |-> 0, thr |-> -1]
-NoEnv == [eof |-> FALSE, eofSeen |-> FALSE, kmin |-> 0, cbs |-> 0, pendcb |-> FALSE]
+NoEnv == [eof |-> FALSE, eofSeen |-> FALSE, kmin |-> 0, cbs |-> 0, pendcb |-> FALSE, err |-> FALSE, errSeen |-> FALSE]
 
 IsEv(e) == l <= Len(Tr) /\ Tr[l].e = e /\ l' = l + 1
 E == Tr[l]
@@ -42,8 +42,24 @@ InstOfMsg(m) == CHOOSE i \in DOMAIN inst : inst[i].u = 1000 + m
 TEnter     == IsEv("send.enter") /\ Enter(E.i, E.t, E.d, E.f, "?", E.u, E.s) /\ Keep /\ KeepL
               /\ NoteEnter(E.i, E.t, E.u) /\ UNCHANGED <<inProxy, pend, plain>>
 TDirect    == IsEv("send.direct") /\ Direct(E.i, E.v) /\ NoteRan /\ UNCHANGED ucb /\ KeepB /\ KeepL /\ PoolAlive
+(* The state read in tpt_msg_send is unsynchronised: the value seen must be the destination's state as the
+   specification knows it, unless that state changed after the sender's previous event (window semantics). *)
+StateEvents == {"tcreate.starting", "tcreate.failed", "proc.running", "proc.stop", "shutdown.cb", "create.pvt_running",
+                "shutdown.set", "call.attach_first", "Reset"}
+StateEvThread(k) == IF Tr[k].e \in {"tcreate.starting", "tcreate.failed"} THEN Tr[k].b
+                    ELSE IF Tr[k].e \in {"create.pvt_running", "shutdown.set"} THEN PVT
+                    ELSE IF Tr[k].e = "call.attach_first" THEN 0
+                    ELSE IF Tr[k].e = "Reset" THEN -7 ELSE Tr[k].a
+LastChange(d) == LET ks == {k \in 1..(l - 1) : Tr[k].e \in StateEvents /\ StateEvThread(k) \in {d, -7}} IN
+                 IF ks = {} THEN 0 ELSE CHOOSE k \in ks : \A j \in ks : j <= k
+LastEvOf(p)   == LET ks == {k \in 1..(l - 1) : Tr[k].t = p} IN
+                 IF ks = {} THEN 0 ELSE CHOOSE k \in ks : \A j \in ks : j <= k
+FreshOrRacing(d, p, wantRunning) == \/ (tstate[d] \in RunningStates) = wantRunning
+                                    \/ LastChange(d) > LastEvOf(p)
 TRunning   == IsEv("send.running") /\ ReadState(E.i, TRUE) /\ Keep /\ KeepB /\ KeepL
+              /\ FreshOrRacing(E.d, E.t, TRUE)
 TNotRun    == IsEv("send.notrunning") /\ ReadState(E.i, FALSE) /\ Keep /\ KeepB /\ KeepL
+              /\ FreshOrRacing(E.d, E.t, FALSE)
 TWrite     == IsEv("wr") /\ Keep /\ KeepB /\ KeepL
               /\ IF E.rc = 0 THEN WriteOk(E.i, E.c) ELSE WriteFail(E.i, E.rc, E.inj = 1)
 TReturn    == IsEv("ret.send") /\ Keep /\ KeepB /\ KeepL
@@ -140,6 +156,7 @@ THang       == IsEv("Hang") /\ Hung(E.where) /\ KeepMB
 KeepAllButE == KeepM /\ KeepB /\ KeepLL
 TEvNew     == IsEv("evnew") /\ KeepAllButE /\ UNCHANGED eVars /\ UNCHANGED ecall
               /\ eenv' = [eenv EXCEPT ![E.u] = [NoEnv EXCEPT !.kmin = E.k]]
+TEvMin     == IsEv("evmin") /\ KeepAllButE /\ UNCHANGED <<eVars, ecall>> /\ eenv' = [eenv EXCEPT ![E.u].kmin = E.k]
 TEvCall    == IsEv("call.ev") /\ KeepAllButE /\ EvEnter(E.u, E.t) /\ UNCHANGED eenv
               /\ ecall' = [ecall EXCEPT ![E.u] = [op |-> E.op, ev |-> E.ev, fl |-> E.fl, ff |-> E.ff, thr |-> E.thr]]
 TEvRet     == IsEv("ret.ev") /\ KeepAllButE /\ UNCHANGED eenv
@@ -151,18 +168,25 @@ TEvDeliver == IsEv("loop.cb") /\ KeepAllButE /\ UNCHANGED ecall /\ (EvDeliver(E.
 TEvCb      == IsEv("evcb") /\ KeepAllButE /\ UNCHANGED <<eVars, ecall>>
               /\ eenv[E.u].pendcb /\ E.cur = E.t                          \* the callback the loop just started, on that thread
               /\ ((E.fl \div 256) % 2 = 1 => eenv[E.u].eof)               \* (C06) EOF flag only after the peer closed
+              /\ ((E.fl \div 512) % 2 = 1 => eenv[E.u].eof \/ eenv[E.u].err)   \* (C06) ERROR flag only on an error condition
               /\ eenv' = [eenv EXCEPT ![E.u].pendcb = FALSE, ![E.u].cbs = @ + 1,
-                                      ![E.u].eofSeen = @ \/ ((E.fl \div 256) % 2 = 1)]
+                                      ![E.u].eofSeen = @ \/ ((E.fl \div 256) % 2 = 1),
+                                      ![E.u].errSeen = @ \/ ((E.fl \div 512) % 2 = 1)]
 TEvEnv     == (IsEv("mkready") \/ IsEv("drained")) /\ KeepAllButE /\ UNCHANGED <<eVars, ecall, eenv>>
 TEvPeer    == IsEv("peerclose") /\ KeepAllButE /\ UNCHANGED <<eVars, ecall>> /\ eenv' = [eenv EXCEPT ![E.u].eof = TRUE]
+(* readerclose: the read end of a pipe whose WRITE end is registered goes away: the kernel reports an error condition *)
+TEvPeerErr == IsEv("readerclose") /\ KeepAllButE /\ UNCHANGED <<eVars, ecall>> /\ eenv' = [eenv EXCEPT ![E.u].err = TRUE]
+(* evreopen: the descriptor was closed behind the library's back and its number reused; the registration record stays *)
+TEvReopen  == IsEv("evreopen") /\ KeepAllButE /\ UNCHANGED <<eVars, ecall, eenv>>
 (* evcount: end of the observation window of object u *)
 TEvCount   == IsEv("evcount") /\ KeepAllButE /\ UNCHANGED <<eVars, ecall, eenv>>
               /\ E.cnt = eenv[E.u].cbs
               /\ E.cnt >= eenv[E.u].kmin                                   \* (C06) a persistent event kept firing
               /\ (eenv[E.u].eof /\ ereg[E.u].present /\ ~ereg[E.u].dis => eenv[E.u].eofSeen)   \* (C06) EOF reported
+              /\ (eenv[E.u].err /\ eenv[E.u].cbs > 0 => eenv[E.u].errSeen)                       \* (C06) error condition carries its flag
               /\ C06Inv
 
-TNext == \/ TEvNew \/ TEvCall \/ TEvRet \/ TEvGate \/ TEvDeliver \/ TEvCb \/ TEvEnv \/ TEvPeer \/ TEvCount
+TNext == \/ TEvMin \/ TEvPeerErr \/ TEvReopen \/ TEvNew \/ TEvCall \/ TEvRet \/ TEvGate \/ TEvDeliver \/ TEvCb \/ TEvEnv \/ TEvPeer \/ TEvCount
          \/ TEnter \/ TDirect \/ TRunning \/ TNotRun \/ TWrite \/ TReturn
          \/ TRead \/ TRun \/ TUserCb \/ TQuiesce \/ TReset
          \/ TCallB \/ TCallCb \/ TRecInit \/ TProxy \/ TOboCbDone \/ TBcbBegin \/ TBcbEnd \/ TDec \/ TWait \/ TSyncLeave
